@@ -18,6 +18,7 @@ import (
 	"time"
 
 	g "github.com/zenon-network/go-zenon/chain/genesis/mock"
+	"github.com/zenon-network/go-zenon/chain/genesis"
 	"github.com/zenon-network/go-zenon/chain/nom"
 	"github.com/zenon-network/go-zenon/common/db"
 	"github.com/zenon-network/go-zenon/common/types"
@@ -61,6 +62,15 @@ func c01Cases(tier string, seed int64) []string {
 		l = append(l, fmt.Sprintf("hist:%d", i))
 	}
 	l = append(l, "genesis:mock")
+	// generated consistent genesis configurations, each followed by a short history
+	nw := 4
+	if tier == "thorough" {
+		nw = 30
+		l = append(l, "genesis:mainnet")
+	}
+	for i := 0; i < nw; i++ {
+		l = append(l, fmt.Sprintf("genesis:world:%d", i))
+	}
 	return l
 }
 
@@ -315,15 +325,39 @@ func c01Run(c *fw.C, caseID string) {
 	base := c.ScratchDir("c01")
 	defer os.RemoveAll(base)
 	consensus.EpochDuration = 10 * time.Minute
-	P := simnet.Open("P", base+"/P", simnet.MockGenesis(), g.PillarKeys)
+	var P *simnet.Node
+	var world *simnet.World
+	var wi int
+	switch {
+	case caseID == "genesis:mainnet":
+		gen, err := genesis.MakeEmbeddedGenesisConfig()
+		if err != nil {
+			c.Inconclusive("no embedded genesis: " + err.Error())
+			return
+		}
+		P = simnet.Open("P", base+"/P", gen, nil)
+	case scan1(caseID, "genesis:world:%d", &wi):
+		var err error
+		world, err = simnet.MakeWorld(rand.New(rand.NewSource(r.Int63())), 1+r.Intn(40), 3+r.Intn(12), wi%4 == 3)
+		if err != nil {
+			c.Violation("harness-genesis-inconsistent", err.Error())
+			return
+		}
+		P = simnet.Open("P", base+"/P", world.NewGenesis(), world.PillarKeys)
+	default:
+		P = simnet.Open("P", base+"/P", simnet.MockGenesis(), g.PillarKeys)
+	}
 	defer P.Stop()
 	mon := &c01Monitor{c: c, n: P, seenBlocks: map[types.Hash]bool{}}
 	mon.check("genesis", nil)
-	if caseID == "genesis:mock" {
-		c.Count("genesis_states_checked", 1)
+	c.Count("genesis_states_checked", 1)
+	if caseID == "genesis:mock" || caseID == "genesis:mainnet" {
 		return
 	}
 	w := simnet.NewWorkload(rand.New(rand.NewSource(r.Int63())), P)
+	if world != nil {
+		w.Users, w.PillarNames, w.SporkKey = world.Users, world.PillarNames, world.SporkKey
+	}
 	w.ContractWeight = 55
 	w.Sporks = true
 	var idx int
@@ -370,7 +404,7 @@ func c01Run(c *fw.C, caseID string) {
 				mon.check("user-block "+act, w)
 			}
 		}
-		if long && P.Height() > 604 && r.Intn(2) == 0 {
+		if long && world == nil && P.Height() > 604 && r.Intn(2) == 0 {
 			// collect rewards: pillars and delegators
 			for _, kp := range []interface{}{g.Pillar1, g.Pillar2, g.Pillar3, g.User1, g.User3} {
 				_ = kp
